@@ -148,7 +148,8 @@ impl Config for C {
             Ok(ais::messages::AisMessage::PositionReport(p)) => Some(p.rate_of_turn.map(|r| (r.rate(), format!("{:?}", r.direction())))),
             _ => None,
         })
-        .unwrap_or(None)
+        // a panic inside the accessors is an observation too (reported as the direction text), not "no value"
+        .unwrap_or_else(|m| Some(Some((None, format!("PANIC in RateOfTurn::rate()/direction(): {}", m)))))
     }
 
     fn canon_history(&self, lines: &[(Vec<u8>, bool)]) -> Vec<String> {
